@@ -73,6 +73,15 @@
 //	    `make([]field, n)` is `List.replicate n.toNat Val.nil` after a run-time panic for `n < 0`
 //	    (the model has no nil interface inside a slice: the placeholder is `Val.nil`; the refinement
 //	    theorem shows that every placeholder is overwritten).
+//	C8a a container built around a local slice.  `s := make(…); B; x := &T{val: s}; x.Init(x)`, where B uses `s`
+//	    only as `s[i]` and does not mention the name `x`, and `s` is dead behind the allocation, is read as
+//	    `x := &T{val: make(…)}; x.Init(x); B[s[i] ↦ x.val[i]]` — the form of C8 / C9.  In Go the two are the same
+//	    program: `make` is evaluated at the same point, `x.val` and `s` are the same slice (same backing array,
+//	    and B cannot replace either: it does not mention `x`, and `s` only under an index), the struct is
+//	    reachable by nobody until `x` is used, `Init` only sets `x.ptr` (checked by C8), and when an
+//	    allocation happens is not observable in Go (if B panics the struct is garbage either way).  The
+//	    model numbers cells in allocation order; by this rule the order is that of the C8 form, the cell
+//	    of `x` before the cells B allocates — a renaming of addresses no Go program can observe.
 //	C9  stores and reads.  `x.val[i] = v` with `i` a range index is `h.setItems x ((h.items x).set i v)`
 //	    after a run-time panic for `i ≥ len`; `x.val[i]` (read) is `match (h.items x)[i]? with
 //	    | none => run-time panic | some t => …`; `m[k]` on a map is `lookup (h.fields x) k : Option Val`.
@@ -1171,6 +1180,10 @@ func (c *cgCtx) execAssign(st *ast.AssignStmt, rest []ast.Stmt, env *cgEnv, k cg
 	}
 	if st.Tok == token.DEFINE {
 		name := st.Lhs[0].(*ast.Ident).Name
+		// s := make(…); …s[i]…; x := &T{val: s}; x.Init(x)   (C8a)
+		if moved := cgAllocFirst(st, rest); moved != nil {
+			return c.execList(moved, env, k)
+		}
 		// x := &list{val: e}; x.Init(x)   (C8)
 		if u, ok := st.Rhs[0].(*ast.UnaryExpr); ok && u.Op == token.AND {
 			return c.alloc(st, name, u, rest, env, k)
@@ -1349,6 +1362,91 @@ func (c *cgCtx) alloc(st *ast.AssignStmt, name string, u *ast.UnaryExpr, rest []
 		return lLet{b, env.heap + ".length", lLet{hn, env.heap + " ++ [Cell.list (" + v.lean + ") 0]",
 			c.execList(rest[1:], env2, k)}}
 	})
+}
+
+// cgAllocFirst implements C8a.  `st` is `s := make(…)`; if the statements behind it have the form
+//
+//	B…; x := &T{f: s}; x.Init(x); R…
+//
+// where B mentions `s` only as the operand of index expressions `s[i]`, B and the `make` expression do not mention the
+// name `x` (neither as a variable nor as the type it may shadow), and R does not mention `s`, the result is
+//
+//	x := &T{f: make(…)}; x.Init(x); B[s[i] ↦ x.f[i]]…; R…
+//
+// (on a copy of the statements; nil if the form is not present).
+func cgAllocFirst(st *ast.AssignStmt, rest []ast.Stmt) []ast.Stmt {
+	sId, ok := st.Lhs[0].(*ast.Ident)
+	mk, isCall := unparen(st.Rhs[0]).(*ast.CallExpr)
+	if !ok || sId.Name == "_" || !isCall || !isIdent(mk.Fun, "make") {
+		return nil
+	}
+	s := sId.Name
+	for j := 0; j+1 < len(rest); j++ {
+		a, ok := rest[j].(*ast.AssignStmt)
+		if !ok || a.Tok != token.DEFINE || len(a.Lhs) != 1 || len(a.Rhs) != 1 {
+			continue
+		}
+		xId, ok := a.Lhs[0].(*ast.Ident)
+		u, isAddr := a.Rhs[0].(*ast.UnaryExpr)
+		if !ok || !isAddr || u.Op != token.AND {
+			continue
+		}
+		lit, ok := u.X.(*ast.CompositeLit)
+		if !ok || len(lit.Elts) != 1 {
+			continue
+		}
+		kv, ok := lit.Elts[0].(*ast.KeyValueExpr)
+		if !ok || !isIdent(kv.Value, s) {
+			continue
+		}
+		f, ok := kv.Key.(*ast.Ident)
+		if !ok {
+			continue
+		}
+		x := xId.Name
+		if _, isType := lit.Type.(*ast.Ident); !isType || x == "_" || x == s || src(rest[j+1]) != x+".Init("+x+")" {
+			return nil
+		}
+		if identOccurs(mk, x) != 0 || identOccurs(mk, s) != 0 {
+			return nil
+		}
+		uses, indexed := 0, 0
+		for _, b := range rest[:j] {
+			uses += identOccurs(b, s)
+			if identOccurs(b, x) != 0 {
+				return nil
+			}
+			ast.Inspect(b, func(n ast.Node) bool {
+				if ix, ok := n.(*ast.IndexExpr); ok && isIdent(ix.X, s) {
+					indexed++
+				}
+				return true
+			})
+		}
+		if uses != indexed {
+			return nil
+		}
+		for _, r := range rest[j+2:] {
+			if identOccurs(r, s) != 0 {
+				return nil
+			}
+		}
+		moved := copyStmts(rest)
+		alloc := moved[j].(*ast.AssignStmt)
+		alloc.Rhs[0].(*ast.UnaryExpr).X.(*ast.CompositeLit).Elts[0].(*ast.KeyValueExpr).Value = copyExpr(st.Rhs[0])
+		for _, b := range moved[:j] {
+			ast.Inspect(b, func(n ast.Node) bool {
+				if ix, ok := n.(*ast.IndexExpr); ok && isIdent(ix.X, s) {
+					ix.X = &ast.SelectorExpr{X: &ast.Ident{NamePos: ix.X.Pos(), Name: x}, Sel: &ast.Ident{NamePos: ix.X.Pos(), Name: f.Name}}
+				}
+				return true
+			})
+		}
+		out := []ast.Stmt{alloc, moved[j+1]}
+		out = append(out, moved[:j]...)
+		return append(out, moved[j+2:]...)
+	}
+	return nil
 }
 
 // an empty, non-nil map[string]field; a capacity hint that is syntactically a length cannot be negative (C8)
